@@ -9,15 +9,21 @@
   `invalid csr meta magic` on every compacted database.  Fixed by repo commit 6e96268 (vacuum decodes
   the page lists with csr.rs's own `meta_page_ids`); `layout_agrees` re-checks the agreement on every run.
 -/
-import Nervus.Proofs.Vacuum
+import Nervus.Proofs.VacuumSucc
 import Nervus.Model.VacuumReal
 namespace Nervus.Props.C28
 open Nervus Nervus.Vacuum
 
-/-- a well-formed closed database: every page is read in one role only (`Typed`), and a segment meta
-    page holds the page lists csr.rs writes (offsets, edges, in_offsets, in_edges) -/
+/-- a well-formed closed database: every page is read in one role only (`Typed`), page ids occur once
+    in the file, every reachable page passes the check vacuum applies to its role (it is allocated, a
+    B-tree page where a B-tree page is expected, no zero child), every blob page is referenced once
+    (`Markable`), and a segment meta page holds the page lists csr.rs writes -/
 def WellFormed (L : Layout) (d : Db) (τ : Nat → Role) : Prop :=
-  Typed L d τ ∧ ∀ p lists, d.pages.get p = some (.csrMeta lists) → lists.length ≤ Generated.csrMetaLists
+  Markable L d τ ∧ ∀ p lists, d.pages.get p = some (.csrMeta lists) → lists.length ≤ Generated.csrMetaLists
+
+/-- fuel that always suffices: one unit per root and per page reference in the file -/
+def enoughFuel (L : Layout) (d : Db) (τ : Nat → Role) : Nat :=
+  (roots L d).length + (futureOf (succV L d) (univ d τ) []).length
 
 /-- what a reader of `d'` sees is what a reader of `d` sees: the same roots, the same reachable
     (page, role) nodes, the same content in each of them -/
@@ -26,12 +32,11 @@ def SameView (L : Layout) (d d' : Db) : Prop :=
   (∀ n, Reach (succR d') (roots L d') n ↔ Reach (succR d) (roots L d) n) ∧
   (∀ n, Reach (succR d) (roots L d) n → d'.pages.get n.1 = d.pages.get n.1)
 
-/-- **C28 at full strength**: vacuum succeeds on every well-formed closed database and leaves what
-    a reader sees unchanged.  (Success of the mark phase — fuel, readable pages, no blob page reached
-    twice — is not proved; see `C28_partial`.) -/
+/-- **C28 at full strength** (on the typed page-graph model): vacuum succeeds on every well-formed
+    closed database — with any fuel ≥ roots + page references — and leaves what a reader sees unchanged -/
 def C28_full : Prop :=
-  ∀ (d : Db) (τ : Nat → Role), WellFormed Layout.real d τ →
-    ∃ fuel d', vacuum Layout.real d fuel = .ok d' ∧ SameView Layout.real d d'
+  ∀ (d : Db) (τ : Nat → Role), WellFormed Layout.real d τ → ∀ fuel, enoughFuel Layout.real d τ ≤ fuel →
+    ∃ d', vacuum Layout.real d fuel = .ok d' ∧ SameView Layout.real d d'
 
 /-- vacuum reads the CSR meta page exactly as csr.rs writes it: same magic, same offsets, all the
     page lists (regenerated from vacuum.rs / csr.rs on every run; fails to build if they drift apart) -/
@@ -83,7 +88,20 @@ theorem C28_partial (d : Db) (τ : Nat → Role) (wf : WellFormed Layout.real d 
     subst h
     apply vacuum_preserves
     intro n hn
-    exact mark_complete Layout.real d τ wf.1 fuel keep hm n (C28_inclusion d wf.2 n hn)
+    exact mark_complete Layout.real d τ wf.1.typed fuel keep hm n (C28_inclusion d wf.2 n hn)
+
+/-- **C28 (success)**: on a well-formed database the mark phase returns a page set, whatever the shape
+    and size of the file, as soon as the fuel covers the roots and the page references -/
+theorem C28_mark_succeeds (d : Db) (τ : Nat → Role) (wf : WellFormed Layout.real d τ) (fuel : Nat)
+    (hf : enoughFuel Layout.real d τ ≤ fuel) : ∃ keep, mark Layout.real d fuel = .ok keep :=
+  mark_succeeds Layout.real d τ wf.1 fuel hf
+
+/-- **C28**: the full statement holds of the model -/
+theorem C28 : C28_full := by
+  intro d τ wf fuel hf
+  obtain ⟨keep, hk⟩ := C28_mark_succeeds d τ wf fuel hf
+  refine ⟨keepPages d keep, by simp [vacuum, hk], ?_⟩
+  exact C28_partial d τ wf fuel _ (by simp [vacuum, hk])
 
 /-- **C28 (partial, with the WAL)**: the page file `d` is vacuumed with the roots VACUUM finds in the
     log and read with the roots the ENGINE finds in the log; for every log and every well-formed file,
@@ -114,7 +132,9 @@ def exampleTyping (p : Nat) : Role :=
 
 /-- the example is well formed -/
 example : WellFormed Layout.real exampleDb exampleTyping :=
-  ⟨typed_of_pages _ _ _ (by decide +kernel) (by decide +kernel), lists_of_pages _ _ (by decide +kernel)⟩
+  ⟨markable_of_refs _ _ _ (typed_of_pages _ _ _ (by decide +kernel) (by decide +kernel)) (by decide +kernel)
+    (by decide +kernel) (by decide +kernel), lists_of_pages _ _ (by decide +kernel)⟩
+example : enoughFuel Layout.real exampleDb exampleTyping = 17 := by decide +kernel
 
 /-- vacuum succeeds on it, keeps the 16 live pages (plus pages 0 and 1) and drops the orphan -/
 example : (okOf (mark Layout.real exampleDb 100)).map (fun l => (l.length, l.contains 20)) = some (18, false) := by
